@@ -743,3 +743,597 @@ def full_init(line):
             pre.append("ainit %d %d %s %s %s %s" % (r, a, E([], esz[a]), E([], lo), E([], hi), E([], 0)))
     body = [o for o in ops[1:] if not o.startswith("top ")]
     return " ; ".join([ops[0]] + pre + body)
+
+
+# ------------------------------------------------------------------ arrays of booleans (oracle only)
+# History language "abhist" / "abshape" of harness/arrays.cpp (modes smash-bool, adapt-bool:S:N:C:M).
+# Concrete semantics: as above with cells that hold booleans; every array has element size 1.
+# The model driver (ocaml/arrays_drv.ml) does not know this language: these lines go to the
+# C++ harness only.
+
+BPOOL = [0, 1, 2, 3, 4, 5, 6, 7, 8, 9, 10, 11, 12, 0, 1, 2, 3, -1, 100]
+BMAXS = 48
+SZ1 = "E 0 1"
+
+
+def bconst(v):
+    return "E 0 %d" % (1 if v else 0)
+
+
+def gen_bool_history(rng, opts=None):
+    """header: abhist <nregs> <nints> <nbools> <narrays> one=<offset|->,..   (one-cell arrays take strong updates)"""
+    opts = opts or {}
+    nregs = rng.randint(2, 3)
+    ni = rng.randint(2, 3)
+    nb = rng.randint(2, 4)
+    na = rng.randint(1, 2)
+    ncells = rng.choice([2, 3, 4, 6, 10])
+    one = [None] * na
+    for a in range(na):
+        if rng.random() < 0.25:
+            one[a] = rng.choice([0, 0, 1, 3])
+    ops = []
+
+    def bval(r):
+        """(prefix ops, value token): a constant, or a boolean variable (often one that holds a known value)"""
+        x = rng.random()
+        if x < 0.45:
+            return [], bconst(rng.random() < 0.5)
+        b = rng.randrange(nb)
+        if x < 0.6:
+            return ["bset %d %d %d" % (r, b, rng.randint(0, 1))], "B %d" % b
+        if x < 0.8:
+            # b := (v <= k) with v a known constant: b holds a known value
+            v = rng.randrange(ni); c0 = rng.randrange(8); k = rng.randrange(8)
+            return ["assign %d %d %s" % (r, v, E([], c0)),
+                    "bassign %d %d C le %s" % (r, b, E([(1, v)], -k))], "B %d" % b
+        if x < 0.86:
+            b2 = rng.randrange(nb)
+            return ["bcopy %d %d %d %d" % (r, b, b2, rng.randint(0, 1))], "B %d" % b
+        if x < 0.94:
+            # b := (v <= k) with v in a range around k: b is unknown and tied to v (assume_bool on a
+            # variable loaded from the array then refines v)
+            v = rng.randrange(ni); lo = rng.randrange(4); hi = lo + rng.randint(1, 6); k = rng.randint(lo, hi)
+            return ["forget %d 1 %d" % (r, v), "assume %d 2 %s" % (r, cst_bounds(v, lo, hi)),
+                    "bassign %d %d C le %s" % (r, b, E([(1, v)], -k))], "B %d" % b
+        return [], "B %d" % b              # whatever the register knows about b
+
+    def idx(r, a, wide=False):
+        """(prefix ops, index expression)"""
+        if one[a] is not None:
+            if rng.random() < 0.3:
+                v = rng.randrange(ni)
+                return ["assign %d %d %s" % (r, v, E([], one[a]))], E([(1, v)], 0)
+            return [], E([], one[a])
+        x = rng.random()
+        if x < 0.5:
+            return [], E([], rng.randrange(ncells + (3 if wide else 0)))
+        v = rng.randrange(ni)
+        if x < 0.85:
+            lo = rng.randrange(ncells); hi = lo + rng.randrange(ncells)
+            if rng.random() < 0.4:
+                lo, hi = 0, ncells - 1
+            pre = ["forget %d 1 %d" % (r, v), "assume %d 2 %s" % (r, cst_bounds(v, lo, hi))]
+            return pre, E([(1, v)], rng.choice([0, 0, 0, 1]))
+        if x < 0.93:
+            return [], E([(1, v)], 0)
+        return ["assign %d %d %s" % (r, v, E([], rng.randrange(ncells)))], E([(1, v)], 0)
+
+    def init(r, a, val=None):
+        lo, hi = (0, ncells - 1 + rng.randrange(3)) if one[a] is None else (one[a], one[a])
+        pre, v = ([], bconst(val)) if val is not None else bval(r)
+        return pre + ["ainit %d %d %s %s %s %s" % (r, a, SZ1, E([], lo), E([], hi), v)]
+
+    def load(r, a, wide=True, assume=0.5):
+        pre, ix = idx(r, a, wide)
+        x = rng.randrange(nb)
+        o = pre + ["aload %d %d %d %s %s" % (r, x, a, SZ1, ix)]
+        if rng.random() < assume:
+            o.append("bassume %d %d %d" % (r, x, rng.randint(0, 1)))
+        return o
+
+    def store(r, a, val=None, strong=None):
+        pre, ix = idx(r, a)
+        pv, v = ([], bconst(val)) if val is not None else bval(r)
+        if strong is None:
+            strong = 1 if (one[a] is not None and rng.random() < 0.6) else 0
+        return pre + pv + ["astore %d %d %s %s %s %d" % (r, a, SZ1, ix, v, strong)]
+
+    # prologue aimed at one of the case splits of the boolean branches
+    a = rng.randrange(na)
+    shape = rng.choices(["none", "init", "weak-after-init", "strong-weak", "var", "range", "join", "cells"],
+                        [1, 2, 3, 2, 2, 2, 3, 5])[0]
+    if shape == "init":
+        for a2 in range(na):
+            if rng.random() < 0.8:
+                ops += init(0, a2)
+        for r in range(1, nregs):
+            if rng.random() < 0.7:
+                ops.append("copy %d 0" % r)
+    elif shape == "weak-after-init":
+        c0 = rng.random() < 0.5
+        ops += init(0, a, c0)
+        for _ in range(rng.randint(1, 2)):
+            ops += store(0, a, (not c0) if rng.random() < 0.8 else None, 0)
+        ops += load(0, a, False)
+    elif shape == "strong-weak":
+        c0 = rng.random() < 0.5
+        if one[a] is None:
+            one[a] = rng.choice([0, 0, 2])
+        ops += store(0, a, c0 if rng.random() < 0.7 else None, 1)
+        ops += store(0, a, (not c0) if rng.random() < 0.7 else None, 0)
+        ops += load(0, a)
+    elif shape == "var":
+        if rng.random() < 0.6:
+            ops += init(0, a)
+        b = rng.randrange(nb); v = rng.randrange(ni); c0 = rng.randrange(6); k = rng.randrange(6)
+        ops += ["assign 0 %d %s" % (v, E([], c0)), "bassign 0 %d C le %s" % (b, E([(1, v)], -k))]
+        pre, ix = idx(0, a)
+        if "%d " % v in " ".join(pre):
+            pre = []; ix = E([], 0 if one[a] is None else one[a])
+        ops += pre + ["astore 0 %d %s %s B %d %d" % (a, SZ1, ix, b, 1 if one[a] is not None and rng.random() < 0.5 else 0)]
+        ops += load(0, a)
+    elif shape == "range" and one[a] is None:
+        if rng.random() < 0.6:
+            ops += init(0, a)
+        lb = rng.randrange(ncells); ub = lb + rng.randrange(ncells + 2)
+        pre, v = bval(0)
+        ops += pre + ["arange 0 %d %s %s %s %s" % (a, SZ1, E([], lb), E([], ub), v)]
+        for _ in range(rng.randint(1, 3)):
+            ops += load(0, a)
+    elif shape == "join":
+        c0 = rng.random() < 0.5
+        ops += init(0, a, c0)
+        ops += init(1, a, (not c0) if rng.random() < 0.7 else c0)
+        for r in (0, 1):
+            if rng.random() < 0.5:
+                ops += store(r, a)
+        t = rng.randrange(nregs)
+        ops.append("%s %d 0 1" % (rng.choice(["join", "join", "joinw", "widen"]), t))
+        ops += load(t, a)
+    elif shape == "cells" and one[a] is None:
+        # constant-index stores (the adaptive domain keeps one cell each, up to max_array_size), then a
+        # store at a symbolic index (smash or kill), then loads
+        if rng.random() < 0.35:
+            ops += init(0, a)
+        offs = list(range(ncells)) if rng.random() < 0.6 else [rng.randrange(ncells) for _ in range(rng.randint(1, 5))]
+        vlast = None
+        for o in offs[:6]:
+            if rng.random() < 0.7:
+                vlast = rng.random() < 0.5
+                pv, v = [], bconst(vlast)
+            else:
+                pv, v = bval(0)
+            ops += pv + ["astore 0 %d %s %s %s 0" % (a, SZ1, E([], o), v)]
+        if rng.random() < 0.85:
+            w = rng.randrange(ni); lo = rng.randrange(ncells); hi = lo + rng.randrange(ncells)
+            # often the constant that the last cell holds: the summary is then not top
+            pv, v = ([], bconst(vlast)) if (vlast is not None and rng.random() < 0.5) else bval(0)
+            ops += ["forget 0 1 %d" % w, "assume 0 2 %s" % cst_bounds(w, lo, hi)] + pv
+            ops.append("astore 0 %d %s %s %s 0" % (a, SZ1, E([(1, w)], 0), v))
+        for _ in range(rng.randint(1, 3)):
+            ops += load(0, a)
+
+    for _ in range(rng.randint(opts.get("minops", 3), opts.get("maxops", 18))):
+        r = rng.randrange(nregs)
+        a = rng.randrange(na)
+        pick = rng.choices(
+            ["ainit", "aload", "astore", "arange", "acopy", "assign", "arith", "assume", "forget",
+             "bset", "bassign", "bcopy", "bassume", "join", "widen", "copy", "top", "bot", "q_leq", "widenthr", "joinw"],
+            [5, 14, 14, 5, 3, 3, 2, 3, 2,
+             2, 3, 2, 5, 6, 3, 5, 0.5, 0.3, 0.5, 1, 2])[0]
+        if pick == "ainit":
+            ops += init(r, a)
+        elif pick == "aload":
+            ops += load(r, a)
+        elif pick == "astore":
+            ops += store(r, a)
+        elif pick == "arange":
+            if one[a] is not None:
+                continue
+            lb = rng.randrange(ncells)
+            pv, v = bval(r)
+            if rng.random() < 0.65:
+                ops += pv + ["arange %d %d %s %s %s %s" % (r, a, SZ1, E([], lb), E([], lb + rng.randrange(ncells + 2)), v)]
+            else:
+                pre, ub = idx(r, a)
+                lbe = E([], 0) if rng.random() < 0.7 else ub
+                ops += pre + pv + ["arange %d %d %s %s %s %s" % (r, a, SZ1, lbe, ub, v)]
+        elif pick == "acopy":
+            b = rng.randrange(na)
+            if one[a] != one[b]:
+                continue
+            ops.append("acopy %d %d %d" % (r, a, b))
+        elif pick == "assign":
+            ops.append("assign %d %d %s" % (r, rng.randrange(ni), E([], rng.randrange(ncells + 2))))
+        elif pick == "arith":
+            ops.append("arith %d %s %d %d k %d" % (r, rng.choice(["add", "sub"]), rng.randrange(ni), rng.randrange(ni), rng.choice([1, 1, 2])))
+        elif pick == "assume":
+            v = rng.randrange(ni)
+            lo = rng.choice([0, 0, 1, 4]); hi = lo + rng.choice([0, 1, 4, 8])
+            ops.append("assume %d 2 %s" % (r, cst_bounds(v, lo, hi)))
+        elif pick == "forget":
+            if rng.random() < 0.3:
+                ops.append("forget1 %d %d" % (r, rng.randrange(ni + nb + na)))
+            else:
+                vs = rng.sample(range(ni + nb + na), rng.randint(1, 2))
+                ops.append("forget %d %d %s" % (r, len(vs), " ".join(map(str, vs))))
+        elif pick == "bset":
+            ops.append("bset %d %d %d" % (r, rng.randrange(nb), rng.randint(0, 1)))
+        elif pick == "bassign":
+            v = rng.randrange(ni)
+            kind = rng.choice(["le", "le", "lt", "eq", "ne"])
+            ops.append("bassign %d %d C %s %s" % (r, rng.randrange(nb), kind, E([(rng.choice([1, 1, -1]), v)], rng.choice([0, -1, -3, -5, 3]))))
+        elif pick == "bcopy":
+            ops.append("bcopy %d %d %d %d" % (r, rng.randrange(nb), rng.randrange(nb), rng.randint(0, 1)))
+        elif pick == "bassume":
+            ops.append("bassume %d %d %d" % (r, rng.randrange(nb), rng.randint(0, 1)))
+        elif pick in ("join", "widen", "joinw"):
+            ops.append("%s %d %d %d" % (pick, r, rng.randrange(nregs), rng.randrange(nregs)))
+        elif pick == "widenthr":
+            n = rng.randint(0, 2)
+            ops.append("widenthr %d %d %d %d %s" % (r, rng.randrange(nregs), rng.randrange(nregs), n,
+                                                    " ".join(str(rng.choice([0, 5, 10])) for _ in range(n))))
+        elif pick == "copy":
+            ops.append("copy %d %d" % (r, rng.randrange(nregs)))
+        elif pick in ("top", "bot"):
+            ops.append("%s %d" % (pick, r))
+        elif pick == "q_leq":
+            ops.append("q_leq %d %d" % (rng.randrange(nregs), rng.randrange(nregs)))
+    meta = "one=%s" % ",".join("-" if x is None else str(x) for x in one)
+    return "%s %d %d %d %d %s ; %s" % (opts.get("head", "abhist"), nregs, ni, nb, na, meta, " ; ".join(ops))
+
+
+def gen_bool_loop_history(rng, opts=None):
+    """a loop analysed with widening (tests/domains/array_smashing.cc prog4b): register 0 = head, 1 = body,
+    2 = exit; the body stores a constant / a variable at the induction variable v0"""
+    opts = opts or {}
+    na = rng.randint(1, 2)
+    n = rng.randint(2, 6)
+    ops = ["assign 0 0 %s" % E([], 0), "bset 0 0 %d" % rng.randint(0, 1), "bset 0 1 %d" % rng.randint(0, 1)]
+    for a in range(na):
+        if rng.random() < 0.75:
+            v = bconst(rng.random() < 0.5) if rng.random() < 0.5 else "B %d" % rng.randint(0, 1)
+            ops.append("ainit 0 %d %s %s %s %s" % (a, SZ1, E([], 0), E([], n - 1 + rng.randrange(2)), v))
+    for it in range(rng.randint(2, 4)):
+        ops.append("copy 1 0")
+        ops.append("assume 1 1 C le E 1 1 0 %d" % (-(n - 1)))
+        for _ in range(rng.randint(1, 3)):
+            a = rng.randrange(na)
+            x = rng.random()
+            if x < 0.5:
+                v = bconst(rng.random() < 0.5) if rng.random() < 0.5 else "B %d" % rng.randint(0, 1)
+                ops.append("astore 1 %d %s %s %s 0" % (a, SZ1, E([(1, 0)], 0), v))
+            elif x < 0.8:
+                ops.append("aload 1 %d %d %s %s" % (rng.choice([2, 3]), a, SZ1, E([(1, 0)], 0)))
+            elif x < 0.9:
+                ops.append("astore 1 %d %s %s %s 0" % (a, SZ1, E([], rng.randrange(n)), bconst(rng.random() < 0.5)))
+            else:
+                ops.append("bassign 1 %d C le %s" % (rng.randint(0, 1), E([(1, 0)], -rng.randrange(n))))
+        ops.append("arith 1 add 0 0 k 1")
+        ops.append("%s 0 0 1" % ("join" if it == 0 else rng.choice(["widen", "widen", "join", "widenthr"])))
+        if ops[-1].startswith("widenthr"):
+            ops[-1] += " 2 %d %d" % (n, n + 1)
+    ops.append("copy 2 0")
+    ops.append("assume 2 1 C le E 1 -1 0 %d" % (n - 1))
+    for a in range(na):
+        ix = E([], rng.randrange(n)) if rng.random() < 0.6 else E([(1, 0)], -1)
+        x = rng.choice([2, 3])
+        ops.append("aload 2 %d %d %s %s" % (x, a, SZ1, ix))
+        if rng.random() < 0.5:
+            ops.append("bassume 2 %d %d" % (x, rng.randint(0, 1)))
+    return "%s 3 2 4 %d one=%s ; %s" % (opts.get("head", "abhist"), na, ",".join(["-"] * na), " ; ".join(ops))
+
+
+# hand-picked boolean-array histories, one per case split of the boolean branches
+BOOL_CORPUS = [
+    # init true on [0,9]; weak store of the constant false at i in [0,9]; the other cells still hold true
+    "abhist 1 2 2 1 one=- ; ainit 0 0 E 0 1 E 0 0 E 0 9 E 0 1 ; assume 0 2 C le E 1 -1 0 0 C le E 1 1 0 -9 ; astore 0 0 E 0 1 E 1 1 0 0 E 0 0 0 ; assume 0 2 C le E 1 -1 1 0 C le E 1 1 1 -9 ; aload 0 0 0 E 0 1 E 1 1 1 0 ; bassume 0 0 0",
+    # the same with init false / weak store true, and the negated assume
+    "abhist 1 2 2 1 one=- ; ainit 0 0 E 0 1 E 0 0 E 0 9 E 0 0 ; assume 0 2 C le E 1 -1 0 0 C le E 1 1 0 -9 ; astore 0 0 E 0 1 E 1 1 0 0 E 0 1 0 ; assume 0 2 C le E 1 -1 1 0 C le E 1 1 1 -9 ; aload 0 0 0 E 0 1 E 1 1 1 0 ; bassume 0 0 1",
+    # init by a variable, weak store of a variable holding the other value
+    "abhist 1 2 3 1 one=- ; bset 0 0 1 ; bset 0 1 0 ; ainit 0 0 E 0 1 E 0 0 E 0 9 B 0 ; assume 0 2 C le E 1 -1 0 0 C le E 1 1 0 -9 ; astore 0 0 E 0 1 E 1 1 0 0 B 1 0 ; aload 0 2 0 E 0 1 E 0 3 ; bassume 0 2 0",
+    # one-cell array: strong store, weak store of the other constant, load
+    "abhist 1 2 2 1 one=0 ; astore 0 0 E 0 1 E 0 0 E 0 1 1 ; aload 0 0 0 E 0 1 E 0 0 ; astore 0 0 E 0 1 E 0 0 E 0 0 0 ; aload 0 1 0 E 0 1 E 0 0 ; bassume 0 1 0",
+    # strong store of a variable that holds (v0 <= 3) with v0 = 2, then v0 changes
+    "abhist 1 2 2 1 one=0 ; assign 0 0 E 0 2 ; bassign 0 0 C le E 1 1 0 -3 ; astore 0 0 E 0 1 E 0 0 B 0 1 ; assign 0 0 E 0 7 ; aload 0 1 0 E 0 1 E 0 0 ; bassume 0 1 0",
+    # b0 := (v0 <= 3) with v0 in [0,9] is stored (weak) over cells that hold true; assuming the loaded value false says nothing on v0
+    "abhist 1 2 2 1 one=- ; ainit 0 0 E 0 1 E 0 0 E 0 3 E 0 1 ; assume 0 2 C le E 1 -1 0 0 C le E 1 1 0 -9 ; bassign 0 0 C le E 1 1 0 -3 ; astore 0 0 E 0 1 E 0 1 B 0 0 ; aload 0 1 0 E 0 1 E 0 2 ; bassume 0 1 0 ; aload 0 1 0 E 0 1 E 0 1 ; bassume 0 1 1",
+    # all cells hold b0 = (v0 <= 3): assuming a loaded cell refines v0; after v0 changes it does not
+    "abhist 2 2 2 1 one=- ; assume 0 2 C le E 1 -1 0 0 C le E 1 1 0 -9 ; bassign 0 0 C le E 1 1 0 -3 ; ainit 0 0 E 0 1 E 0 0 E 0 3 B 0 ; copy 1 0 ; aload 0 1 0 E 0 1 E 0 2 ; bassume 0 1 0 ; arith 1 add 0 0 k 5 ; aload 1 1 0 E 0 1 E 0 2 ; bassume 1 1 0",
+    # range store of a constant over a part of an initialised array; loads inside / outside
+    "abhist 1 2 3 1 one=- ; ainit 0 0 E 0 1 E 0 0 E 0 9 E 0 1 ; arange 0 0 E 0 1 E 0 2 E 0 5 E 0 0 ; aload 0 0 0 E 0 1 E 0 3 ; aload 0 1 0 E 0 1 E 0 7 ; bassume 0 1 0 ; bassume 0 0 1",
+    # join of registers whose arrays hold different constants
+    "abhist 3 2 2 1 one=- ; ainit 0 0 E 0 1 E 0 0 E 0 3 E 0 1 ; ainit 1 0 E 0 1 E 0 0 E 0 3 E 0 0 ; join 2 0 1 ; aload 2 0 0 E 0 1 E 0 1 ; bassume 2 0 0",
+    # constant-index stores, then a store at a symbolic index (adaptive: smash), loads of old cells
+    "abhist 1 2 3 1 one=- ; astore 0 0 E 0 1 E 0 0 E 0 1 0 ; astore 0 0 E 0 1 E 0 1 E 0 1 0 ; astore 0 0 E 0 1 E 0 2 E 0 1 0 ; assume 0 2 C le E 1 -1 0 0 C le E 1 1 0 -2 ; astore 0 0 E 0 1 E 1 1 0 0 E 0 0 0 ; aload 0 0 0 E 0 1 E 0 1 ; bassume 0 0 0 ; aload 0 1 0 E 0 1 E 1 1 0 0 ; bassume 0 1 1",
+    # cells with different contents, then a store at a symbolic index of the constant that the last cell holds
+    # (adaptive: the smashed array must keep the value of the first cell)
+    "abhist 1 2 3 1 one=- ; astore 0 0 E 0 1 E 0 0 E 0 1 0 ; astore 0 0 E 0 1 E 0 1 E 0 0 0 ; astore 0 0 E 0 1 E 0 2 E 0 0 0 ; assume 0 2 C le E 1 -1 0 0 C le E 1 1 0 -2 ; astore 0 0 E 0 1 E 1 1 0 0 E 0 0 0 ; aload 0 0 0 E 0 1 E 0 0 ; bassume 0 0 0",
+    "abhist 1 2 3 1 one=- ; bset 0 2 1 ; astore 0 0 E 0 1 E 0 0 E 0 0 0 ; astore 0 0 E 0 1 E 0 1 B 2 0 ; assume 0 2 C le E 1 -1 0 0 C le E 1 1 0 -1 ; astore 0 0 E 0 1 E 1 1 0 0 B 2 0 ; aload 0 0 0 E 0 1 E 0 0 ; bassume 0 0 1",
+    # symbolic load over cells with different contents (adaptive: temporary smashed array)
+    "abhist 1 2 3 1 one=- ; astore 0 0 E 0 1 E 0 0 E 0 1 0 ; astore 0 0 E 0 1 E 0 1 E 0 0 0 ; assume 0 2 C le E 1 -1 0 0 C le E 1 1 0 -1 ; aload 0 0 0 E 0 1 E 1 1 0 0 ; bassume 0 0 1",
+    # copy of an array, then a weak store into the copy
+    "abhist 1 2 3 2 one=-,- ; ainit 0 0 E 0 1 E 0 0 E 0 3 E 0 1 ; acopy 0 1 0 ; astore 0 1 E 0 1 E 0 2 E 0 0 0 ; aload 0 0 1 E 0 1 E 0 1 ; aload 0 1 0 E 0 1 E 0 2 ; bassume 0 0 0",
+    # the known finding of the adaptive domain with boolean cells: a cell that the state does not track
+    "abhist 2 2 2 1 one=- ; astore 0 0 E 0 1 E 0 2 E 0 1 0 ; join 1 0 1 ; astore 1 0 E 0 1 E 0 0 E 0 0 0 ; assume 1 2 C le E 1 -1 0 0 C le E 1 1 0 -1 ; astore 1 0 E 0 1 E 1 1 0 0 E 0 0 0 ; aload 1 1 0 E 0 1 E 0 2",
+]
+
+
+def gen_bool(seed, tier, n=None, opts=None):
+    rng = random.Random(seed)
+    n = n if n is not None else (300 if tier == "quick" else 5000)
+    lines = list(BOOL_CORPUS) if (opts or {}).get("corpus", True) else []
+    for _ in range(n):
+        lines.append(gen_bool_loop_history(rng, opts) if rng.random() < 0.12 else gen_bool_history(rng, opts))
+    if opts and opts.get("head"):
+        lines = [l.replace("abhist", opts["head"], 1) if l.startswith("abhist") else l for l in lines]
+    return lines
+
+
+def bool_header(line):
+    h = line.split(" ; ", 1)[0].split()
+    nregs, ni, nb, na = int(h[1]), int(h[2]), int(h[3]), int(h[4])
+    one = [None] * na
+    for x in h[5:]:
+        if x.startswith("one="):
+            one = [None if y == "-" else int(y) for y in x[4:].split(",")]
+    return nregs, ni, nb, na, one
+
+
+def p_bval(k):
+    """value of a store: ('k', bool) or ('b', index)"""
+    if k.t[k.p] == "B":
+        k.next()
+        return ("b", k.nexti())
+    e = p_exp(k)
+    return ("k", e[1] >= 1)
+
+
+def parse_bool_state(a):
+    a = a.split(" # ")[0].strip()
+    if a == "_|_":
+        return "bot"
+    if a.startswith("T"):
+        a = a[1:]
+    its, _, bs = a.partition(" / ")
+    return [parse_itv(x) for x in its.split("|")], [x.strip() for x in bs.split("|")] if bs.strip() else []
+
+
+BNAME = {"t": "true", "f": "false", "T": "top", "B": "bottom"}
+# how much the oracle saw: loads replayed, loads after which some concrete state was left to compare with,
+# among those the loads whose abstract result was true or false (so that a wrong value is visible)
+BSTATS = {"loads": 0, "loads_checked": 0, "loads_checked_definite": 0}
+
+
+def oracle_bool(line, ans, rng=None):
+    """replays the history on sampled concrete states (integers, booleans, arrays of booleans): every
+    printed at(v) and every printed boolean value must admit the value of the variable in every state
+    reached by the same operations; a register with a reached state must not be bottom.  The message
+    ends with the concrete execution that reaches the state (one state per operation that it went through)"""
+    if ans in ("ABORT", "MISSING") or ans.startswith("HARNESS-ERROR") or ans.startswith("ABORT"):
+        return None
+    ops = [o.split() for o in line.split(" ; ")]
+    nregs, ni, nb, na, one = bool_header(line)
+    answers = ans.split(" ; ")
+    r0 = random.Random(zlib.crc32(line.encode()))
+
+    def rand_state():
+        return (tuple(r0.choice(BPOOL) for _ in range(ni)), tuple(r0.random() < 0.5 for _ in range(nb)),
+                tuple(() for _ in range(na)))
+
+    top_samples = list(dict.fromkeys(rand_state() for _ in range(BMAXS)))
+    regs = [list(top_samples) for _ in range(nregs)]
+    last = [0] * nregs          # the step that wrote the register last
+    prov = {}                   # (step, state) -> (step, state) it came from
+    ai = 0
+
+    def upd(t, x, v):
+        l = list(t); l[x] = v
+        return tuple(l)
+
+    def okidx(a, i, sz):
+        return i >= 0 and sz == 1 and (one[a] is None or i == one[a])
+
+    def val(v, b):
+        return v[1] if v[0] == "k" else b[v[1]]
+
+    def havoc(st, vs):
+        s, b, m = st
+        for v in vs:
+            if v < ni:
+                s = upd(s, v, r0.choice(BPOOL))
+            elif v < ni + nb:
+                b = upd(b, v - ni, r0.random() < 0.5)
+            else:
+                m = upd(m, v - ni - nb, ())
+        return (s, b, m)
+
+    def path_of(step, st):
+        path = []
+        key = (step, st)
+        while key is not None:
+            path.append(key)
+            key = prov.get(key)
+        path.reverse()
+        return path
+
+    def untracked(step, st, a, i, v):
+        """adaptive modes (shapes are printed): the cell A[i] held v along the execution since some step after
+        which the abstract value neither has a cell for it nor has smashed the array: the domain has lost the
+        cell (join with a value that does not track it, forget, max_array_size, killed by a symbolic store)"""
+        for stp, x in reversed(path_of(step, st)[:-1]):
+            if aget(x[2][a], i) != v or stp == 0:
+                break
+            t = answers[stp - 1]
+            if " # " not in t:
+                continue
+            mm = re.search(r"A%d=(\S+)" % a, t.split(" # ", 1)[1])
+            if not mm or mm.group(1).startswith("S"):
+                continue
+            if ("%d:1" % i) not in mm.group(1).strip("{}").split(","):
+                return " [untracked: A%d[%d] = %s is a defined cell that the value after step %d does not track: A%d=%s]" % (
+                    a, i, "true" if v else "false", stp, a, mm.group(1))
+        return ""
+
+    def execution(step, st):
+        path = path_of(step, st)
+        return " -> ".join("[%s] %s" % ("start" if i == 0 else "%d: %s" % (i, " ".join(ops[i])), show_bool(x)) for i, x in path)
+
+    for idx, o in enumerate(ops[1:], 1):
+        if not o:
+            continue
+        if ai >= len(answers):
+            return None
+        a_txt = answers[ai]; ai += 1
+        k = Tok(o)
+        op = k.next()
+        where = "step %d (%s) of: %s" % (idx, " ".join(o), line)
+        if op == "q_leq":
+            continue
+        r = k.nexti()
+        srcs = [r]              # registers the new states come from
+        f = None                # successor states of one state
+        if op == "top":
+            srcs = []
+        elif op == "bot":
+            srcs = []
+        elif op == "copy":
+            srcs = [k.nexti()]
+            f = lambda st: [st]
+        elif op == "assign":
+            x = k.nexti(); e = p_exp(k)
+            f = lambda st: [(upd(st[0], x, ev(e, st[0])), st[1], st[2])]
+        elif op == "arith":
+            fn = k.next(); x = k.nexti(); y = k.nexti(); kind = k.next(); zz = k.nexti()
+
+            def f(st):
+                s = st[0]
+                a1 = s[y]; b1 = s[zz] if kind == "v" else zz
+                v = a1 + b1 if fn == "add" else a1 - b1 if fn == "sub" else (a1 * b1 if (a1.bit_length() + b1.bit_length() <= 4096) else None)
+                return [] if v is None else [(upd(s, x, v), st[1], st[2])]
+        elif op == "assume":
+            n = k.nexti(); cs = [p_cst(k) for _ in range(n)]
+            f = lambda st: [st] if all(holds(c, st[0]) for c in cs) else []
+        elif op in ("forget", "forget1"):
+            n = k.nexti() if op == "forget" else 1
+            vs = [k.nexti() for _ in range(n)]
+            f = lambda st: [havoc(st, vs) for _ in range(3)]
+        elif op == "bset":
+            x = k.nexti(); v = k.nexti() != 0
+            f = lambda st: [(st[0], upd(st[1], x, v), st[2])]
+        elif op == "bassign":
+            x = k.nexti(); c = p_cst(k)
+            f = lambda st: [(st[0], upd(st[1], x, holds(c, st[0])), st[2])]
+        elif op == "bcopy":
+            x = k.nexti(); y = k.nexti(); neg = k.nexti() != 0
+            f = lambda st: [(st[0], upd(st[1], x, (not st[1][y]) if neg else st[1][y]), st[2])]
+        elif op == "bassume":
+            x = k.nexti(); neg = k.nexti() != 0
+            f = lambda st: [st] if st[1][x] != neg else []
+        elif op in ("ainit", "arange"):
+            a = k.nexti(); es = p_exp(k); lb = p_exp(k); ub = p_exp(k); v = p_bval(k)
+
+            def f(st):
+                s, b, m = st
+                l, u, sz = ev(lb, s), ev(ub, s), ev(es, s)
+                if sz != 1 or u - l > 64 or (one[a] is not None and l < u):
+                    return []
+                if l <= u and not okidx(a, l, sz):
+                    return []
+                arr = () if op == "ainit" else m[a]
+                for i in range(l, u + 1):
+                    arr = aset(arr, i, val(v, b))
+                return [(s, b, upd(m, a, arr))]
+        elif op == "aload":
+            x = k.nexti(); a = k.nexti(); es = p_exp(k); ix = p_exp(k)
+
+            def f(st):
+                s, b, m = st
+                i = ev(ix, s)
+                if not okidx(a, i, ev(es, s)) or aget(m[a], i) is None:
+                    return []
+                return [(s, upd(b, x, aget(m[a], i)), m)]
+        elif op == "astore":
+            a = k.nexti(); es = p_exp(k); ix = p_exp(k); v = p_bval(k); strong = k.nexti()
+
+            def f(st):
+                s, b, m = st
+                i = ev(ix, s)
+                if not okidx(a, i, ev(es, s)) or (strong and one[a] is None):
+                    return []
+                return [(s, b, upd(m, a, aset(m[a], i, val(v, b))))]
+        elif op == "acopy":
+            l = k.nexti(); rr = k.nexti()
+            f = lambda st: [(st[0], st[1], upd(st[2], l, st[2][rr]))]
+        elif op in ("join", "widen", "widenthr", "joinw"):
+            srcs = [k.nexti(), k.nexti()]
+            f = lambda st: [st]
+        elif op in ("meet", "narrow"):
+            s1, t1 = k.nexti(), k.nexti()
+            other = set(regs[t1])
+            srcs = [s1]
+            f = lambda st: [st] if st in other else []
+        else:
+            return None
+        new = {}
+        if op == "top":
+            for st in top_samples:
+                new[st] = None
+        for q in srcs:
+            for st in regs[q]:
+                for nst in f(st):
+                    if nst not in new:
+                        new[nst] = (last[q], st)
+        S = list(new)
+        if len(S) > BMAXS:
+            S = r0.sample(S, BMAXS)
+        for st in S:
+            if new[st] is not None:
+                prov[(idx, st)] = new[st]
+        regs[r] = S
+        last[r] = idx
+        st = parse_bool_state(a_txt)
+        if op == "aload":
+            BSTATS["loads"] += 1
+            if S:
+                BSTATS["loads_checked"] += 1
+                if st != "bot" and x < len(st[1]) and st[1][x] in ("t", "f"):
+                    BSTATS["loads_checked_definite"] += 1
+        if st == "bot":
+            if regs[r]:
+                return "%s: the value is bottom but state %s is reachable by the same concrete operations | concrete execution: %s" % (
+                    where, show_bool(regs[r][0]), execution(idx, regs[r][0]))
+            continue
+        its, bs = st
+        for cs in regs[r]:
+            s, b, m = cs
+            for v in range(min(ni, len(its))):
+                if its[v] is not None and not in_itv(its[v], s[v]):
+                    return "%s: at(v%d) = %s but the reachable state %s has v%d = %d | concrete execution: %s" % (
+                        where, v, its[v], show_bool(cs), v, s[v], execution(idx, cs))
+            for v in range(min(nb, len(bs))):
+                if bs[v] == "T" or (bs[v] == "t" and b[v]) or (bs[v] == "f" and not b[v]):
+                    continue
+                note = untracked(idx, cs, a, ev(ix, s), b[v]) if (op == "aload" and v == x) else ""
+                return "%s: at(b%d) = %s but the reachable state %s has b%d = %s%s | concrete execution: %s" % (
+                    where, v, BNAME.get(bs[v], bs[v]), show_bool(cs), v, "true" if b[v] else "false", note, execution(idx, cs))
+    return None
+
+
+def show_bool(st):
+    s, b, m = st
+    return "ints=%s bools=%s arrays=%s" % (list(s), ["true" if x else "false" for x in b],
+                                          [{o: ("true" if v else "false") for o, v in a} for a in m])
+
+
+def nontrivial_bool(line, ans):
+    """rule: at least one load returned true or false (neither top nor bottom)"""
+    ops = [x for x in line.split(" ; ")[1:] if x.strip()]
+    for o, a in zip(ops, ans.split(" ; ")):
+        t = o.split()
+        if t and t[0] == "aload":
+            st = parse_bool_state(a)
+            if st != "bot" and int(t[2]) < len(st[1]) and st[1][int(t[2])] in ("t", "f"):
+                return True
+    return False
